@@ -38,7 +38,7 @@ ASSUMPTIONS = [
 ]
 TIERS = {
     "quick": {"runs": 560, "chunk": 10, "wall": 100, "chunk_timeout": 400, "selftest": 6},
-    "thorough": {"runs": 13000, "chunk": 40, "wall": 800, "chunk_timeout": 900, "selftest": 10},
+    "thorough": {"runs": 8000, "chunk": 25, "wall": 800, "chunk_timeout": 900, "selftest": 10},
 }
 EXPECTED_PROBES = {t: ["depth3_module", "dotted_path_3", "service_in_module", "device_in_module", "impl_in_module",
                        "enum_in_module", "module_uses_grandchild_decl", "missing_at_depth3", "two_modules_same_basename"]
